@@ -141,7 +141,10 @@ def summarize(F, key):
             continue
         alts = []
         for c in blst:
-            alts.append([_sig_atoms(ex.operand(a)) for a in c["t"]["args"][:6]])
+            al = [_sig_atoms(ex.operand(a)) for a in c["t"]["args"][:6]]
+            if ALLOC_HINT.search(callee_names(c["t"])[0]):
+                al = [[x for x in a if not x.startswith("const:")] for a in al]
+            alts.append(al)
         args[bk] = alts
     # guards: every real branch condition (comparisons with operand origins, boolean calls) - `?`, log-level tests and loop headers excluded
     conds = {}
@@ -203,6 +206,7 @@ def summarize(F, key):
     return {"must": must, "order": order, "args": args, "guards": guards, "silent": silent, "assigns": assigns, "ret": ret, "consts": const_census(fn)}
 
 
+ALLOC_HINT = re.compile(r"::(with_capacity|reserve|reserve_exact)$")
 INT_TY = re.compile(r"^[ui](8|16|32|64|128|size)$")
 
 
@@ -219,6 +223,8 @@ def const_census(fn):
                 except ValueError:
                     return
                 if "item" in v:
+                    if not WS.match(norm(v["item"])):
+                        return  # constants of std/core internals (layout, alignment) are compiler detail, not the function's arithmetic
                     c["%s=%d" % (short(v["item"], 2), n)] += 1
                 elif n >= 2:
                     c[str(n)] += 1
@@ -239,6 +245,8 @@ def const_census(fn):
         if t["k"] == "call":
             if set((t.get("span") or {}).get("macros", [])) & {"debug", "trace", "info", "warn", "error", "format", "write", "println", "panic", "assert", "assert_eq"}:
                 continue
+            if ALLOC_HINT.search(callee_names(t)[0] if callee_names(t) else ""):
+                continue  # a pre-allocation hint: any constant is a bounded allocation (C11's R4 rule decides non-constant ones)
             for a in t["args"]:
                 op(a)
         elif t["k"] == "switch":
@@ -555,8 +563,14 @@ def check(ctx, prop):
                 bad += 1
                 ctx.record("baseline-assign", "R9", k, "%s: the value stored into .%s keeps its origins" % (short(k, 2), field), "violation", [where],
                            ["on the confirmed tree .%s was assigned from %s; now from %s" % (field, alts[:2], ca)], key_detail="assign:" + field)
-        cc = cur.get("consts", {})
+        cc = dict(cur.get("consts", {}))
         missing = {kk: n for kk, n in b.get("consts", {}).items() if cc.get(kk, 0) < n}
+        if missing:
+            # helper tolerance: the arithmetic may have moved into a directly called workspace function
+            for hk in _direct_helpers(F, k):
+                for kk, n in const_census(F.fns[hk]).items():
+                    cc[kk] = cc.get(kk, 0) + n
+            missing = {kk: n for kk, n in b.get("consts", {}).items() if cc.get(kk, 0) < n}
         n_assign[0] += len(b.get("consts", {}))
         if missing:
             bad += 1
@@ -565,7 +579,11 @@ def check(ctx, prop):
                        key_detail="consts:" + ",".join(sorted(missing))[:80])
         if b.get("ret") and cur.get("ret") is not None:
             n_assign[0] += 1
-            if not set(b["ret"]) <= set(cur["ret"]):
+            have = set(cur["ret"])
+            if not set(b["ret"]) <= have:
+                for hk in _direct_helpers(F, k):
+                    have |= set(summarize(F, hk).get("ret") or [])
+            if not set(b["ret"]) <= have:
                 bad += 1
                 ctx.record("baseline-ret", "R9", k, "%s: the returned value keeps its origins and operators" % short(k, 2), "violation", [where],
                            ["on the confirmed tree the result derived from %s; now from %s (missing %s)" % (b["ret"], cur["ret"], sorted(set(b["ret"]) - set(cur["ret"])))],
@@ -581,6 +599,15 @@ def check(ctx, prop):
         ctx.record("baseline", "R9", None, "confirmed-instance baseline: %d functions, %d must-pass, %d check-before-change, %d argument-origin, %d branch-condition, %d no-new-skip instances hold" % (
             len(base), n_must, n_order, n_args, n_guards[0], n_silent[0]), "hold", sorted(base)[:6])
     return not bad
+
+
+def _direct_helpers(F, k):
+    out = []
+    for bi, t in F.calls(k):
+        for n in callee_names(t):
+            if n in F.fns and n != k and WS.match(n) and n not in out:
+                out.append(n)
+    return out
 
 
 def _guard_in_helper(ctx, k, g):
